@@ -21,6 +21,7 @@ LEVEL = "proof"
 # (wave 4) `INCLUDE = ["w4gen"]` (w4-translator's differential stream of the generated ktensor methods) was tested here and passed
 # (66/66 theorems, 8917 cases) but w4gen.py is still changing (04:55: its cases use `isvector` without importing Gen.GenUtils3), so the
 # stream is NOT included; C08 claims the translator's C08_gen_* THEOREM FILES directly (Props/W4C08.v, W4C08b.v, W4C08c.v in THEOREM_FILES / COQ_TARGETS).
+INCLUDE = ['w4gen']   # wave 4 (lead, integration): differential stream + laws of the ktensor / sptensor methods the translator generates (Gen/GenKtensor4*.v, GenSptensor4*.v)
 GEN_UNITS = ["GenMethods3", "GenKtensor4", "GenKtensor4b"]     # Props/C08d.v: redistribute over the GENERATED ktensor_redistribute; Props/C08f.v: arrange (absorb branch); Props/C08g.v: update
 COQ_TARGETS = ["Props/W4C08.vo", "Props/W4C08b.vo", "Props/W4C08c.vo", "Props/C08.vo", "Props/C08b.vo", "Props/C08c.vo", "Props/C08d.vo", "Props/C08e.vo", "Props/C08f.vo", "Props/C08g.vo", "Props/C08h.vo", "Model/C08Inst4.vo", "Proofs/C08Gen.vo", "Model/C08Inst.vo", "Model/C08Inst2.vo", "Model/C08Inst3.vo", "Model/Harness.vo"]
 THEOREM_FILES = ["Props/C08.v", "Props/C08b.v", "Props/C08c.v", "Props/C08d.v", "Props/C08e.v", "Props/C08f.v", "Props/C08g.v", "Props/C08h.v",
